@@ -270,7 +270,15 @@ class FakeNumpy:
         return as_arr(a).squeeze()
 
     @staticmethod
-    def conj(a, order=None):
+    def conj(a, order=None, out=None):
+        if out is not None:
+            r = FakeNumpy.conj(a)
+            out[...] = r
+            return out
+        return FakeNumpy._conj(a)
+
+    @staticmethod
+    def _conj(a, order=None):
         if isinstance(a, (int, float, complex)):
             return a.conjugate() if isinstance(a, complex) else a
         return as_arr(a).conj()
@@ -650,6 +658,20 @@ class FakeNumpy:
         k = ctx().atoms.new('k', free=True, upper=[n], origin='np.count_nonzero: number of entries kept')
         ctx().event('where', cond=cond, index=None, count=k, env=_simple_env())
         return k
+
+    @staticmethod
+    def take(a, indices, axis=None, out=None, mode='raise'):
+        # a[..., indices, ...] along one axis.  mode='clip' / 'wrap' differ from indexing exactly where it matters for index sets given by a caller: negative
+        # (counted from the end) and out-of-range entries are silently mapped to other positions
+        a = as_arr(a)
+        if out is not None or axis is None:
+            raise AnalysisError('np.take without axis / with out= has no model')
+        ax = axis if axis >= 0 else a.ndim + axis
+        if mode != 'raise':
+            ctx().event('index-mode', array=a, indices=indices, mode=mode,
+                        detail=f"np.take(..., mode='{mode}') maps negative indices to {'0' if mode == 'clip' else 'themselves modulo the length (as indexing does) and out-of-range ones back into range'}"
+                               f"{' and out-of-range ones to the last entry' if mode == 'clip' else ''} instead of {'counting from the end / ' if mode == 'clip' else ''}raising")
+        return a[(slice(None),) * ax + (indices,)]
 
     @staticmethod
     def searchsorted(a, v, side='left', sorter=None):
